@@ -7,7 +7,7 @@ namespace PhreeqcVerif.Api
 open PhreeqcVerif.Gen.Api
 
 /-- every C wrapper regenerated from the current source has the documented forwarding shape -/
-theorem cwrappers_wellformed : cWrappers.all wfC = true := by decide
+theorem cwrappers_wellformed : cWrappers.all wfC = true := by decide +kernel
 
 /-- every Fortran glue function regenerated from the current source adds only the documented
 index shift, padding and row-count adjustment -/
@@ -15,6 +15,31 @@ theorem fwrappers_wellformed : fWrappers.all wfF = true := by decide
 
 /-- the `bind(C)` declarations of the Fortran module match the glue functions -/
 theorem f90_binds_match : f90Ok = true := by decide
+
+/-- **wrapper = documentation, for every function**: the invalid-instance branch of each of the C functions of
+IPhreeqcLib.cpp (all of them: the table, the definitions and the declarations of IPhreeqc.h name the same 77 functions
+with the same return types and arities) is the result transcribed from the doc comments of IPhreeqc.h -/
+theorem wrappers_match_documentation :
+    cComplete = true ∧ cWrappers.all badOk = true := by decide +kernel
+
+/-- the hand transcription of the documentation agrees with the mechanical reading of every doc block
+(`@retval IPQ_BADINSTANCE`, "a negative value indicates an error", or silence) -/
+theorem documentation_table_matches_header : specMatchesHeader = true := by decide
+
+/-- the Fortran glue is complete (declarations of IPhreeqc_interface_F.h = definitions; every glue function has its C
+function; the C functions without glue are exactly the listed ones) and the functions it shifts by one are exactly those
+the documentation marks "N is one-based for the Fortran interface" -/
+theorem fortran_glue_complete_and_shifts_documented : fComplete = true ∧ shiftsMatchDoc = true := by decide
+
+/-- non-vacuity: the predicates reject a wrapper returning the wrong invalid-instance result, a wrong shift and a
+row-count adjustment without its guard -/
+example :
+    matchesDoc ⟨"GetLogString", "const char*", [("int", "id")], [], [], "err_msg", true, "x", []⟩ .silentEmpty = false ∧
+    matchesDoc ⟨"GetDumpStringLineCount", "int", [("int", "id")], [], [], "IPQ_BADINSTANCE", false, "", []⟩ .silentZero = false ∧
+    wfF ⟨"GetComponentF", "void", [("int*", "id"), ("int*", "n"), ("char*", "comp"), ("int*", "line_length")],
+         [("GetComponent", ["*id", "*n"])], [["comp", "::GetComponent(*id,*n)", "line_length"]], false, "", false⟩ = false ∧
+    wfF ⟨"GetSelectedOutputRowCountF", "int", [("int*", "id")], [("GetSelectedOutputRowCount", ["*id"])], [], true, "", false⟩ = false := by
+  decide
 
 /-- `padfstring`: the buffer always holds exactly `len` characters, the source prefix followed by blanks,
 and the reported length is the source length -/
